@@ -179,7 +179,7 @@ def ctor_only():
                 par = pm.get(n)
                 ok = isinstance(par, ast.Call) and par.func is n
                 obs.append(flow.ob(f"{fn.name}@{n.lineno - fn.lineno}:env.undefined-is-only-called", ok, flow.dotted(par)[:100] if par is not None else ""))
-    obs.append(flow.ob("uses-found", uses >= 5, f"{uses} uses of env.undefined in RenderContext"))
+    obs.append(flow.ob("uses-found", uses >= 2, f"{uses} uses of env.undefined in RenderContext"))
     return obs
 
 
